@@ -242,7 +242,29 @@ func (p *Path) deadlock() {
 // idleUntilTimer: nothing can run, so time passes until some timer expires.
 func (p *Path) idleUntilTimer() []*Thread {
 	if p.eng.Cfg.ConcreteClock {
-		p.clock = BV(64, 1<<61)
+		// jump to the earliest concrete deadline that lies ahead (or far ahead
+		// if the pending deadlines are symbolic)
+		var best *Term
+		for _, ch := range p.timers {
+			if ch.timer == nil || !ch.timer.active {
+				continue
+			}
+			d := ch.timer.deadline
+			if d.Op != OpConst || p.clock.Op != OpConst {
+				best = nil
+				break
+			}
+			if d.SInt() >= p.clock.SInt() && (best == nil || d.SInt() < best.SInt()) {
+				best = d
+			}
+		}
+		if best != nil {
+			p.clock = BV(64, uint64(best.SInt()))
+		} else if p.clock.Op == OpConst && p.clock.SInt() < 1<<61 {
+			p.clock = BV(64, 1<<61)
+		} else {
+			p.clock = Bin(OpAdd, p.clock, BV(64, 1<<40))
+		}
 		return p.enabledThreads()
 	}
 	p.advanceClock()
